@@ -1,8 +1,8 @@
 """C09 — action-set encodings are canonical, lossless and portable across model instances."""
 import coqgen as g
 
-SHARD = 600          # archive cases per generated file (each case is an operation sequence of ~20-60 calls)
-PSHARD = 2000        # portability cases per generated file
+ARCH_VOLUME = 100000  # JSON characters of archive operations per generated file (~5 s of coqc each)
+PSHARD = 1000         # portability cases per generated file
 
 
 def s_(v):
@@ -76,51 +76,62 @@ def run(ctx):
             ctx.failing_inputs.append(l)
         if l.get("kind") == "stat":
             ctx.stats = l["stats"]
-    ctx.check_theorems("Properties/C09.v")
-
     arch = [c for c in cases if c["t"] == "arch"]
     order = [c for c in cases if c["t"] == "order"]
     inst = [c for c in cases if c["t"] == "inst"]
     port = [c for c in cases if c["t"] == "port"]
-    nshards = 0
 
-    def shard_out(name, typ, fn, items, shard, ncases):
-        body = g.HEADER + IMPORTS
-        body += "Definition cases : list %s := [\n  " % typ + ";\n  ".join(items) + "\n].\n"
-        body += "Definition M := Eval vm_compute in %s cases.\nPrint M.\n" % fn
-        idx = ctx.correspondence(name, body, ncases=ncases)
-        if idx:
-            for i in idx[:3]:
-                ctx.notes.append({"mismatch_in": name, "case": shard[i]})
-        return idx
+    # every coqc run (the property file and each generated shard) is independent: run up to 4 at a time
+    jobs = [lambda: ctx.check_theorems("Properties/C09.v")]
 
-    # operation sequences on archives; shards balanced by number of operations
-    for si, shard in enumerate(g.chunks(arch, SHARD)):
-        items = ["mk %s %s" % (g.nat(c["n"]), g.lst([op(o) for o in c["ops"]])) for c in shard]
-        shard_out("cases_C09_arch_%d" % si, "case", "mismatches", items, shard, len(shard))
-        nshards += 1
+    def shard_job(name, typ, fn, items, shard):
+        def job():
+            body = g.HEADER + IMPORTS
+            body += "Definition cases : list %s := [\n  " % typ + ";\n  ".join(items) + "\n].\n"
+            body += "Definition M := Eval vm_compute in %s cases.\nPrint M.\n" % fn
+            idx = ctx.correspondence(name, body, ncases=len(shard))
+            if idx:
+                for i in idx[:3]:
+                    ctx.notes.append({"mismatch_in": name, "case": shard[i]})
+        jobs.append(job)
+
+    # operation sequences on archives; shards balanced by text volume (Coq elaborates ~1 ms per literal)
+    shard, vol, si = [], 0, 0
+    for c in arch + [None]:
+        if c is None or vol > ARCH_VOLUME:
+            if shard:
+                items = ["mk %s %s" % (g.nat(x["n"]), g.lst([op(o) for o in x["ops"]])) for x in shard]
+                shard_job("cases_C09_arch_%d" % si, "case", "mismatches", items, shard)
+                si += 1
+            shard, vol = [], 0
+        if c is not None:
+            shard.append(c)
+            vol += sum(len(str(o)) for o in c["ops"])
     # Less matrices and sort results
     for si, shard in enumerate(g.chunks(order, 40)):
         items = ["mko %s %s %s" % (keys(c["keys"]), bits(c["less"]), keys(c["sorted"])) for c in shard]
-        shard_out("cases_C09_order_%d" % si, "ocase", "omismatches", items, shard, len(shard))
-        nshards += 1
+        shard_job("cases_C09_order_%d" % si, "ocase", "omismatches", items, shard)
     # key sequences of independently constructed model instances
     if inst:
         items = [g.lst([keys(ks) for ks in c["instances"]]) for c in inst]
-        shard_out("cases_C09_inst", "(list (list key))", "imismatches", items, inst, len(inst))
-        nshards += 1
+        shard_job("cases_C09_inst", "(list (list key))", "imismatches", items, inst)
     # Compress / Encoding / Decode / Decompress between instances
     for si, shard in enumerate(g.chunks(port, PSHARD)):
         items = ["mkp %s %s %s %s %s" % (bits(c["bits"]), s_(c["enc"]), g.b(c["ok"]), bits(c["before2"]), bits(c["active2"]))
                  for c in shard]
-        shard_out("cases_C09_port_%d" % si, "pcase", "pmismatches", items, shard, len(shard))
-        nshards += 1
+        shard_job("cases_C09_port_%d" % si, "pcase", "pmismatches", items, shard)
+    nshards = len(jobs) - 1
+    from concurrent.futures import ThreadPoolExecutor
+    with ThreadPoolExecutor(max_workers=4) as ex:
+        for f in [ex.submit(j) for j in jobs]:
+            f.result()
+    ctx.obligations.sort(key=lambda o: o[0])      # the jobs finish in any order
 
     nops = sum(len(c["ops"]) for c in arch)
     distinct_states = len({(c["n"], str(o[1])) for c in arch for o in c["ops"] if o[0] == "R"})
     distinct_port = len({(c["dataset"], str(c["bits"])) for c in port})
     distinct_dec = len({(c["n"], str(o[1])) for c in arch for o in c["ops"] if o[0] == "D"})
-    exh = 8 if ctx.tier == "quick" else 10
+    exh = 10 if ctx.tier == "quick" else 12
     ctx.coverage.update({
         "evaluations": nops + sum(len(c["less"]) for c in order) + len(port) + sum(len(c["instances"]) for c in inst),
         "distinct_nontrivial": distinct_states + distinct_port + distinct_dec,
